@@ -82,7 +82,18 @@ pub trait PostConversionLinter {
         Ok(())
     }
 
-    fn visit_dim(&mut self, _dim_list: &DimList) -> Result<(), LintErrorPos> {
+    fn visit_dim(&mut self, dim_list: &DimList) -> Result<(), LintErrorPos> {
+        // the bounds of an array are expressions
+        for dim_var in &dim_list.variables {
+            if let DimType::Array(array_dimensions, _) = dim_var.element.var_type() {
+                for ArrayDimension { lbound, ubound } in array_dimensions {
+                    if let Some(lbound) = lbound {
+                        self.visit_expression(lbound)?;
+                    }
+                    self.visit_expression(ubound)?;
+                }
+            }
+        }
         Ok(())
     }
 
